@@ -282,6 +282,19 @@ def _inds2orf(i1, i2, rf, lensec, ftype='ORF', seqid=None):
     return ft
 
 
+def _frame_start(data, frame, gap):
+    """
+    Index of the first residue of a reading frame in data (the strand that is read)
+    """
+    k = frame if frame >= 0 else -frame - 1
+    for i, nt in enumerate(data):
+        if not gap or nt not in gap:
+            if k == 0:
+                return i
+            k -= 1
+    return len(data)
+
+
 def find_orfs(seq, rf='fwd', start='start', stop='stop', need_start='always', need_stop=True, gap='-', minlen=0, ftype='ORF'):
     """
     Find open reading frames (ORFS)
@@ -322,10 +335,15 @@ def find_orfs(seq, rf='fwd', start='start', stop='stop', need_start='always', ne
     orfs = []
     for frame in rf:
         i2 = None
+        # strand which is read in this frame, indices i1, i2 refer to it
+        data = str(seq) if frame >= 0 else str(seq)[::-1]
+        last = len(data.rstrip(gap)) if gap else len(data)  # end of the last residue
         while need_start == 'never' or len(starts.get(frame, [])) > 0 or (need_start=='once' and i2 is not None):
-            i1 = (frame if need_start == 'never' and i2 is None else
+            i1 = (_frame_start(data, frame, gap) if need_start == 'never' and i2 is None else
                   i2 if need_start in ('never', 'once') and i2 is not None else
                   starts[frame].pop(0).start())
+            if i1 >= last:  # no residues left
+                break
             if i2 is not None and i1 < i2:  # start codon before last stop codon (alread present in another ORF)
                 continue
             while len(stops.get(frame, [])) > 0:
